@@ -672,3 +672,20 @@ M("run1-materialise-inverted", "C07", L310, "    if frame_raw.f_stacktop == 0:\n
 M("run1-max-when-empty", "C07", L310, "        if details.blocks:\n            stack_validity_limit = max(", "        if not details.blocks:\n            stack_validity_limit = max(", ["RUN-1", "FORM-2"])
 M("run1-unbounded-top", "C07", L310, "        assert stack_start_offset <= stack_top_offset <= end_offset\n", "        assert stack_start_offset <= stack_top_offset\n", "RUN-1")
 
+
+# ---------------------------------------------------------------- ENG-8 / ESC-4 / REG-9 / SLC-1 yield clause (round 7 follow-ups)
+M("eng8-next-inner-last", "C10", EX, "        next_inner = to_elaborate[0][0] if to_elaborate else None\n", "        next_inner = to_elaborate[-1][0] if to_elaborate else None\n", "ENG-8")
+M("eng8-next-inner-only-frames", "C10", EX, "        next_inner = to_elaborate[0][0] if to_elaborate else None\n",
+  "        next_inner = to_elaborate[0][0] if to_elaborate and isinstance(to_elaborate[0][0], Frame) else None\n", "ENG-8")
+T("eng8-twin-explicit-if", "C10", EX, "        next_inner = to_elaborate[0][0] if to_elaborate else None\n",
+  "        next_inner = None\n        if len(to_elaborate) > 0:\n            next_inner, _ = to_elaborate[0]\n")
+M("grn3-await-always-coro", "C15", "_glue.py", "            # await_ that's not suspended at greenlet.switch() requires\n            # no special handling\n            return None\n",
+  "            # await_ that's not suspended at greenlet.switch() requires\n            # no special handling\n            pass\n", "GRN-3")
+M("grn3-switch-eq", "C15", "_glue.py", "            and next_inner.pyframe.f_code.co_name != \"switch\"\n", "            and next_inner.pyframe.f_code.co_name == \"switch\"\n", "GRN-3")
+T("grn3-twin-nested-ifs", "C15", "_glue.py", "        if (\n            isinstance(next_inner, Frame)\n            and next_inner.pyframe.f_code.co_name != \"switch\"\n        ):\n",
+  "        suspended_in_switch = not isinstance(next_inner, Frame) or next_inner.pyframe.f_code.co_name == \"switch\"\n        if not suspended_in_switch:\n")
+M("grn4-shim-prefers-orig-coro", "C15", "_glue.py", "        if gr_frame is not None:  # pragma: no branch\n", "        if gr_frame is not None and orig_coro is None:  # pragma: no branch\n", "GRN-4")
+M("grn4-trampoline-not-hidden-when-inner", "C15", "_glue.py", "        def elaborate_trampoline(frame: Frame, next_inner: object) -> object:\n            frame.hide = True\n            if isinstance(next_inner, Frame):\n",
+  "        def elaborate_trampoline(frame: Frame, next_inner: object) -> object:\n            frame.hide = not isinstance(next_inner, Frame)\n            if isinstance(next_inner, Frame):\n", "GRN-4")
+T("grn4-twin-shim-early-returns", "C15", "_glue.py", "        if gr_frame is not None:  # pragma: no branch\n            # Yep; switch to walking the greenlet stack, since orig_coro\n            # will look \"running\" but it's not on any thread's stack.\n            return child_greenlet\n        elif orig_coro is not None:  # pragma: no cover\n",
+  "        if gr_frame is not None:  # pragma: no branch\n            return child_greenlet\n        if orig_coro is not None:  # pragma: no cover\n")
